@@ -290,6 +290,27 @@ func Scenarios() []scenario {
 			return []any{p}, [][]thrOp{{opWrite("A", p), opString("A", p)}, reads}
 		}})
 	}
+	// streams carrying frames the decoder rejects, read concurrently: the
+	// error path (error values, messages, what they name) is shared code too
+	out = append(out, scenario{"reads-of-rejected-frames", func() ([]any, [][]thrOp) {
+		bad := [][]byte{
+			unhex("20050000027e00"),           // CONNACK, undefined property id
+			unhex("3006000174020102"),         // PUBLISH, boolean property 2
+			unhex("400100"),                   // PUBACK cut inside the packet id
+			unhex("2008000005808080800100"),   // CONNACK, five-byte property length
+			unhex("300b00017400058080808001"), // PUBLISH, five-byte property length
+			unhex("8206000100000561"),         // SUBSCRIBE, filter cut
+			unhex("e0050004110000"),           // DISCONNECT, session expiry cut
+			unhex("c08080808000"),             // PINGREQ, five-byte remaining length
+		}
+		var a, b []thrOp
+		for i, f := range bad {
+			a = append(a, opRead(fmt.Sprintf("a%d", i), f))
+			b = append(b, opRead(fmt.Sprintf("b%d", i), bad[(i+3)%len(bad)]))
+		}
+		ca := mustBuild(richPacket(2, true))
+		return []any{ca}, [][]thrOp{a, b}
+	}})
 	// two streams read concurrently, one of them arriving in segments
 	// (the goroutine is preempted while waiting for the rest of its body),
 	// without and with an earlier read that failed inside a body
